@@ -61,6 +61,8 @@ def variants():
         ("Decoder: length stored without the mutex", "Decoder", p_decoder.mc_cfg(3, 3, 1, may_fail=False, locked=False)),
         ("Decoder: publish before write", "Decoder", p_decoder.mc_cfg(3, 3, 1, may_fail=False, publish_first=True)),
         ("Decoder: failure not reported to readers (F10)", "Decoder", p_decoder.mc_cfg(3, 3, 1, report=False)),
+        ("PipelineFaults: a worker whose send fails does not decrement the counter (the pinned code's policy; DESIGN 11.7)", "PipelineFaults",
+         p_pipeline.faults_mc_cfg(1, 4, 2, False, 1, True)),
         ("ClusterCache: the cache owns the cluster objects (eviction frees a cluster a reader still uses)", "ClusterCache", p_decoder.CACHE_CFG % "FALSE"),
     ]
     ok = True
